@@ -145,8 +145,16 @@ class Translator:
             elif isinstance(st, ast.Assign) and len(st.targets) == 1 and isinstance(st.targets[0], ast.Name) \
                     and st.targets[0].id in ADP_NAMES:
                 self.add_table_entry(st)
+        # Atom.lattice must be a plain attribute (assignment has no side effect on the ADP storage)
+        plain = [st for st in cls.body if isinstance(st, ast.Assign) and len(st.targets) == 1 and isinstance(st.targets[0], ast.Name)
+                 and st.targets[0].id == "lattice"]
+        if len(plain) != 1 or not (isinstance(plain[0].value, ast.Constant) and plain[0].value.value is None):
+            raise TranslatorRefusal("atom.py: class attribute `lattice = None` not found (is Atom.lattice a property now?)")
+        for st in cls.body:
+            if isinstance(st, ast.FunctionDef) and st.name in ("lattice", "__setattr__", "__getattr__", "__getattribute__"):
+                refuse(a, st, "Atom defines %s: attribute model of Atom.lattice no longer valid" % st.name)
         for n in ADP_NAMES:
-            if n not in self.table_src:
+            if n not in (self.table_src or {}):
                 raise TranslatorRefusal("atom.py: descriptor %s not found as `property(lambda self: .., lambda self, value: ..)`" % n)
         for k in [("Atom", n, "get") for n in ("anisotropy", "U", "Uisoequiv", "Bisoequiv")] + [k for k in SIGS if k[0] == "Atom"]:
             if k not in self.units:
